@@ -7,7 +7,7 @@ namespace C19Drv
 
 def numApp : Nat := 7
 
-def validId (n id : Nat) : Bool := id < n || (100 ≤ id && id < 100 + numApp)
+def validId (n id : Nat) : Bool := id < n || (100 ≤ id && id < 100 + numApp) || (1000 ≤ id && id < 10000)
 
 /-! ### installer histories -/
 
@@ -200,6 +200,16 @@ def drainM : Nat → Peer → Pub → Nat → Peer × Nat
     | some (q', true) => drainM fuel q' p (steps + 1)
     | _ => (q, steps)
 
+/-- `pairs b m`: m times two publisher operations whose two sync updates reach the peer back to back, then
+    everything outstanding is delivered -/
+def pairsM : Nat → Nat → Pub → Peer → Pub × Peer
+  | 0, _, p, q => (p, q)
+  | m + 1, j, p, q =>
+    let p1 := toggleM p (100 + (2 * j * 3) % numApp)
+    let p2 := toggleM p1 (100 + ((2 * j + 1) * 3) % numApp)
+    let q1 := (q.svsReceive p1.seq).svsReceive p2.seq
+    pairsM m (j + 1) p2 (drainM 300 q1 p2 0).1
+
 /-- spec: the publisher's announced set by the ops -/
 def specPubOp (s : LogSt) (op : Spec.PubOp) : LogSt :=
   let (set', changed) := Spec.announce s.sSet op
@@ -385,6 +395,17 @@ def stepFib (s : FibSt) (f : List String) (got : String) : StepResult St :=
                     (if (desired prefixOf s'.rs.t).any (fun (_, fes) => fes.length ≥ 4) then ["multi-homed"] else []),
       nontrivial := !s'.rs.fib.prefixes.isEmpty }
   match f with
+  | ["flood", x, cnt] =>
+    -- `cnt` prefixes announced at once while the forwarder is unresponsive: every queued command is
+    -- delivered once it answers again (model: an ordinary prefix op list)
+    match x.toNat?, cnt.toNat? with
+    | some xi, some c =>
+      if !(xi < s.n) || c < 1 || c > 4000 then { st := .fib s, expected := some "skip", spec := fails } else
+      let ids := ".".intercalate ((List.range c).map fun i => toString (1000 + i))
+      match runFibOp s ["papply", x, "0", ids, "-"] with
+      | some (s', cmds, cov) => finish s' cmds (cov ++ ["flood"] ++ (if cmds.length > 4096 then ["flood-over-queue-capacity"] else []))
+      | none => { st := .fib s, expected := some "skip", spec := fails }
+    | _, _ => { st := .fib s, expected := some "skip", spec := fails }
   | "retry" :: rest =>
     -- a transient failure delays the first registration of the first op; the management thread retries it
     -- IN PLACE, so the commands still take effect in the order they were issued: the ops in sequence
@@ -468,6 +489,19 @@ def stepLog (s : LogSt) (f : List String) (got : String) : StepResult St :=
           { st := .log { s with peers := setPeer s.peers (b - 1) q' }, expected := some s!"{dumpPeer q'} steps={steps}", spec := fails,
             cov := ["drain"] ++ (if steps ≥ 50 then ["drain-long"] else []), nontrivial := steps > 0 }
     else skip
+  | ["pairs", b, m] =>
+    match peerOf b, m.toNat? with
+    | some (b, q), some m =>
+      if m < 1 || m > 200 then skip else
+      let (pub', q') := pairsM m 0 s.pub q
+      let s1 := if got == "skip" then s else
+        let s2 := specBurst (2 * m) 0 s
+        { s2 with told := (b, s2.sSeq) :: s2.told.filter (·.1 != b) }
+      let fails := if got == "skip" then [] else specPeerCheck s1 b got
+      let s1 := notePend s1 b got
+      { st := .log { s1 with pub := pub', peers := setPeer s1.peers (b - 1) q' }, expected := some (dumpPeer q'), spec := fails,
+        cov := ["pairs"], nontrivial := true }
+    | _, _ => skip
   | ["prestart"] =>
     -- the publisher restarts: new numbering (taken from the implementation's clock), empty table, new log
     match got.splitOn " " with
@@ -526,12 +560,12 @@ def step (st : St) (op : String) (got : String) : StepResult St :=
     match st with
     | .none => { st := st, expected := some "skip" }
     | .fib s =>
-      if ["ping", "pingnew", "retry", "adv", "advrace", "dead", "sweep", "papply", "fib"].contains (f.headD "") then stepFib s f got
+      if ["ping", "pingnew", "retry", "flood", "adv", "advrace", "dead", "sweep", "papply", "fib"].contains (f.headD "") then stepFib s f got
       else
         -- keep the spec replay meaningful even on an op the model does not know
         { st := st, expected := some "skip" }
     | .log s =>
-      if ["ann", "wd", "burst", "sync", "prestart", "reach", "unreach", "deliver", "timeout", "drain"].contains (f.headD "") then stepLog s f got
+      if ["ann", "wd", "burst", "sync", "pairs", "prestart", "reach", "unreach", "deliver", "timeout", "drain"].contains (f.headD "") then stepLog s f got
       else { st := st, expected := some "skip" }
 
 end C19Drv
